@@ -1,5 +1,6 @@
 /-
-The theorems are sharp: model-level witnesses for the thirteen repaired defects (D1–D13).
+The theorems are sharp: model-level witnesses for the repaired defects that live in modelled code (D1–D13, D15; D14 is a
+CPython-level defect — a mutable buffer — outside the model).
 
 The Lean model mirrors the REPAIRED library.  For every defect that lives in modelled code this file
 puts the bug back into a small local copy of the affected model function (`…Buggy`) and exhibits, by
@@ -19,6 +20,7 @@ import Rmk.Impl.View
 import Rmk.Impl.Codec
 import Rmk.Impl.Misc
 import Rmk.Impl.Store
+import Rmk.Impl.Virtual
 namespace Rmk.Defects
 open Rmk Rmk.Impl Rmk.Spec
 
@@ -586,5 +588,18 @@ theorem deserVarN_prefix_same_result (dec : Dec) (emin emax scope : Nat) (offs :
     (hlast : offs.getLast? = some scope) :
     (deserVarNTrace false dec emin emax scope offs s).2 = deserVarN dec emin emax scope offs s := by
   rw [deserVarNTrace_result_eq dec emin emax scope offs s hlast, deserVarNTrace_true]
+
+/-! ### D15 — `VirtualNode.setter(expand=True)` on a lazily loaded zero-summary LEAF did not expand (C20) -/
+
+/-- a source that knows no pair at all: every key is a leaf -/
+def d15Src : Virtual.Src := fun _ => none
+
+/-- the lazily loaded leaf holding the zero hash of depth 1, written at gindex 2 with `expand`: the materialised
+    leaf is expanded (`setter`), the repaired virtual `setter` agrees (`setterM`), the unrepaired one refused -/
+example :
+    (setter H0 (.leaf (zeroHash H0 1)) 2 true (.leaf [9])).map (·.root H0)
+      = (Virtual.setterM H0 d15Src (.virt (zeroHash H0 1)) 2 true (.leaf [9])).map (Virtual.MNode.root H0) ∧
+    (Virtual.setterM H0 d15Src (.virt (zeroHash H0 1)) 2 true (.leaf [9])).isSome = true ∧
+    Virtual.setterMUnrepaired H0 d15Src (.virt (zeroHash H0 1)) 2 true (.leaf [9]) = none := by decide
 
 end Rmk.Defects
